@@ -46,7 +46,7 @@ var (
 	Vias     = []string{"call", "new", "apply", "bind", "map", "getter", "jsproxy", "forofnext", "forofbody", "gen", "eval", "promise", "destruct", "spread"}
 	Entries  = []string{"fc", "fcr", "refl", "reflerr", "reflerr1", "method", "ctor", "ctorr", "pxget", "dynget", "getter"}
 	Exits    = []string{"callable", "construct", "expfn", "expfnerr", "get", "tryget", "forofnext", "forofstep", "tryforofnext", "tryforofstep", "run", "rtnew"}
-	Behavs   = []string{"rethrow", "rethrowval", "reterr", "wraperr", "swallow", "swallowall", "replaceval", "replaceerr", "newgoerr"}
+	Behavs   = []string{"rethrow", "rethrowval", "reterr", "wraperr", "joinerr", "customwrap", "swallow", "swallowall", "replaceval", "replaceerr", "newgoerr"}
 	Drivers  = []string{"run", "callable", "construct", "expfn", "expfnerr", "tryget", "tryforofnext", "tryforofstep", "tryexpfn", "rtnew"}
 
 	// payload kinds a script can create (throw / replace)
@@ -70,6 +70,12 @@ func in(s string, l []string) bool {
 
 // CanReturnErr: entry conventions whose Go signature has a trailing `error` result.
 func CanReturnErr(e string) bool { return e == "reflerr" || e == "reflerr1" || e == "method" }
+
+// IsWrap: behaviours that return the error they got inside another error (fmt.Errorf("%w"), errors.Join, a custom type with Unwrap).
+func IsWrap(b string) bool { return b == "wraperr" || b == "joinerr" || b == "customwrap" }
+
+// ReturnsAnError: behaviours that need a trailing `error` result.
+func ReturnsAnError(b string) bool { return b == "reterr" || b == "replaceerr" || IsWrap(b) }
 
 // ExitReturnsErr: exit conventions that hand a script exception back to the Go caller as a value
 // (error result / *Exception from Try) instead of letting it pass as a Go panic.
@@ -208,7 +214,7 @@ func (c *Chain) Valid() error {
 					return fmt.Errorf("frame %d: interrupt leaf", i)
 				}
 			case "overflow":
-				if !(f.B == "rethrow" || f.B == "swallowall" || f.B == "reterr" && CanReturnErr(f.E)) || f.Leaf.Expr != "" {
+				if !(f.B == "rethrow" || f.B == "swallowall" || (f.B == "reterr" || IsWrap(f.B)) && CanReturnErr(f.E)) || f.Leaf.Expr != "" {
 					return fmt.Errorf("frame %d: overflow leaf", i)
 				}
 			case "foreign":
@@ -230,7 +236,7 @@ func (c *Chain) Valid() error {
 			if !in(f.B, Behavs) {
 				return fmt.Errorf("frame %d: behaviour %q", i, f.B)
 			}
-			if (f.B == "reterr" || f.B == "wraperr" || f.B == "replaceerr") && !CanReturnErr(f.E) {
+			if ReturnsAnError(f.B) && !CanReturnErr(f.E) {
 				return fmt.Errorf("frame %d: %s needs an error result", i, f.B)
 			}
 		} else if f.B != "" {
